@@ -106,6 +106,23 @@ Proof.
   exists e. repeat split; try assumption. rewrite (src_add_ref tt c _ _ Htt Hk), H4. reflexivity.
 Qed.
 
+(** the hypothesis [keys_agree] is an invariant of additions *)
+Lemma add_keys_agree c id arg c' : keys_agree c -> add c id arg = Added c' -> keys_agree c'.
+Proof.
+  unfold add, keys_agree. intros Hk. destruct id as [s|]; [|discriminate]. destruct (mem_str s (indices c)); [discriminate|].
+  destruct arg as [d|]; [|discriminate]. destruct (negb (forallb _ _)); [discriminate|]. cbv zeta.
+  destruct (negb _); [discriminate|]. destruct (store_all _); [|discriminate].
+  intros H. injection H as <-. cbn [indices params]. rewrite map_app, Hk. reflexivity.
+Qed.
+
+(** sequences of additions: the source-level program run over a list of calls is [add_all] *)
+Lemma src_add_all_ref tt l : same_types tt -> forall c, keys_agree c -> src_add_all tt ref_add c l = add_all c l.
+Proof.
+  intros Htt. induction l as [|[i a] r IH]; intros c Hk; [reflexivity|]. cbn [src_add_all add_all].
+  rewrite (src_add_ref tt c i a Htt Hk). destruct (add c i a) eqn:Ha; cbn [lift_add]; try reflexivity.
+  apply IH. eapply add_keys_agree; eauto.
+Qed.
+
 (** bool values, whatever else the call says *)
 Theorem src_add_bool_rejected tt c id k d1 d2 : same_types tt ->
   src_add tt ref_add c id (ArgDict (d1 ++ (k, VAtom ABool) :: d2)) = SRaised InputError c.
@@ -183,8 +200,11 @@ Lemma dict_order_differs :
   /\ to_pytorch (fun q => q) c = Ok (["b"; "a"], [("xi", [[2]; [1]])]).
 Proof. split; reflexivity. Qed.
 
-Lemma src_subset_ref c ids : src_subset ref_subset_rule c ids = subset c ids.
-Proof. reflexivity. Qed.
+Lemma src_subset_ref tt c ids : same_types tt -> src_subset tt ref_add ref_subset_rule c ids = subset c ids.
+Proof.
+  intros Htt. unfold src_subset, subset, ref_subset_rule; cbn [ids_of sub_member sub_read sub_via_add].
+  destruct (negb _); [reflexivity|]. apply src_add_all_ref; [exact Htt | reflexivity].
+Qed.
 
 (* ------------------------------------------------------------------------------------------ json *)
 
